@@ -295,6 +295,8 @@ def worker_main(tier, seed, pl, corp, corpus_scn):
                 scn = scenario(seed, corp, 'fault', g - n_c - pl['n_free'])
             res = judge.run(scn)
             agg['runs'] += 1
+            if agg['runs'] % 500 == 0:
+                emit(('progress', 500))
             agg['compared'] += res['compared']
             bb = agg['by_batch'].setdefault(scn['batch'], {'runs': 0, 'compared': 0, 'violations': 0})
             bb['runs'] += 1
@@ -503,8 +505,17 @@ def run_check(tier, seed):
              'by_batch': {}, 'samples': {}, 'seam_lost': 0, 'texts': set(), 'multi_file': 0, 'reach': {}}
     viols = []
 
+    prog = {'n': 0, 't': time.time()}
+    n_total = len(corpus_scn) + pl['n_free'] + pl['n_fault']
+
     def on_frame(i, frame):
-        if frame[0] == 'violation':
+        if frame[0] == 'progress':
+            prog['n'] += frame[1]
+            if time.time() - prog['t'] > 120:       # wall clock used for the progress line only, never for a decision
+                prog['t'] = time.time()
+                print('progress: %d/%d scenarios, %d violations so far' % (prog['n'], n_total, len(viols)))
+                sys.stdout.flush()
+        elif frame[0] == 'violation':
             viols.append(frame[1])
         elif frame[0] == 'done':
             a = frame[1]
